@@ -323,3 +323,95 @@ FAMILIES = [
                          nchanges=2, nwaiters=2, _max_wall=1200),
            reach=['resumed'], bounds='two concurrent waiters on the same condition'),
 ]
+
+
+def fam_reuse_cond(E, modes=(0, 1), shapes=(0, 1)):
+    """one stored derived condition object - (a & b) | c or a | c - is used twice, by two waiters
+    starting at free dates, while a driver toggles the flags through a fixed sequence at free
+    dates (c on, a on, c off, a off, a on; b is on throughout): the first use may be released by
+    one branch while the other is false, the other branch may become true while nobody is
+    subscribed, everything may be reset before the second use.  mode 0: `await cond`; mode 1:
+    `async with until(cond)` around an endless body.  What an earlier use left behind in the
+    condition object must not matter."""
+    from usim import until, eternity
+    mode = modes[E.pick('mode', len(modes))]
+    shape = shapes[E.pick('shape', len(shapes))]
+    g = [E.int('g%d' % i, 0, 6) for i in range(5)]
+    w = [E.int('w%d' % i, 0, 30) for i in range(2)]
+    a, b, c = Flag(), Flag(), Flag()
+    cond = ((a & b) | c) if shape == 0 else (a | c)
+    log = Log()
+    waiting = {}
+
+    def ref():
+        return bool((a._value and (b._value or shape == 1)) or c._value)
+
+    async def driver():
+        await b.set()
+        for k, (flag, val) in enumerate(((c, True), (a, True), (c, False), (a, False), (a, True))):
+            await (time + g[k])
+            log('drv', 'toggle', k)
+            await flag.set(val)
+
+    async def waiter(i):
+        await (time + w[i])
+        log(i, 'await')
+        waiting[i] = True
+        if mode == 0:
+            await cond
+        else:
+            async with until(cond):
+                await eternity
+        waiting[i] = False
+        log(i, 'resume')
+        if mode == 0:
+            # (an until-block is abandoned once its notification fired, whatever happens to the
+            # condition before the activity gets its turn)
+            E.prove(ref(), 'condition-true-on-resume',
+                    ('waiter %d resumed at %r while false', i, now()))
+
+    async def root():
+        async with Scope() as top:
+            top.do(driver())
+            for i in range(2):
+                top.do(waiter(i), volatile=True)
+            await (time + 80)
+
+    state = {'last': None, 'held': False}
+
+    def hook(loop, target, signal):
+        t = loop.time
+        last = state['last']
+        if last is not None and last is not t:
+            for i, wt in waiting.items():
+                if wt:
+                    E.prove(not state['held'], 'never-missed-at-end-of-time-step',
+                            ('waiter %d still waiting after step %r in which the stored '
+                             'condition held', i, last))
+        state['last'] = t
+        state['held'] = ref()
+        E.prove(bool(cond) == ref(), 'bool-follows-boolean-algebra')
+
+    probe = Probe()
+    probe.hooks.append(hook)
+    out = simulate(root(), log=log, probe=probe)
+    bad = classify_run_exception(out.exc, allowed=())
+    E.prove(bad is None, 'run-ends-normally', bad)
+    if out.exc is not None:
+        return
+    for i in range(2):
+        # the flags end with a on: everybody is released in the end
+        E.prove(log.has(i, 'resume'), 'never-missed-at-quiescence', ('waiter %d', i))
+    r0, a1 = log.first(0, 'resume'), log.first(1, 'await')
+    if r0 is not None and a1 is not None and log.pos(r0) < log.pos(a1):
+        E.reach('second-use-after-the-first-was-released')
+    t3 = [x for x in log.of('drv', 'toggle') if x[3] == 3]
+    if t3 and a1 is not None and log.pos(t3[0]) < log.pos(a1):
+        E.reach('second-use-after-a-reset')
+
+
+FAMILIES.append(
+    Family('reuse_cond', fam_reuse_cond, quick=dict(modes=(0,)), thorough=dict(),
+           reach=['second-use-after-the-first-was-released', 'second-use-after-a-reset'],
+           bounds='a stored (a & b) | c / a | c object awaited (or used by until) by two waiters '
+                  'starting in [0,30] while five flag toggles happen at free gaps in [0,6]'))
